@@ -16,7 +16,8 @@ import pydrobert.torch.modules as M
 
 from mc.runner import Ctx
 from mc.oracles import decoding_beam as O
-from checks._c04_lm import TableLM, ObservedBeamSearch, LMContractBreach, SearchDoesNotTerminate
+from checks._c04_lm import (TableLM, ScriptTableLM, ObservedBeamSearch, LMContractBreach,
+                             SearchDoesNotTerminate)
 
 STEP_CAP = 300
 
@@ -35,7 +36,13 @@ RULE = (
     "unset/1/2/3, initial state) on ONE module object - built for a, called with a, public attributes and "
     "arguments changed to b, called, changed back to a, called - where the 2nd and 3rd results must satisfy "
     "the per-result property and equal, column by column, what a fresh object returns (alternately the "
-    "unsubclassed module and the observing subclass). One case = one search (one trajectory) resp. one advance "
+    "unsubclassed module and the observing subclass); plus variants of one search: per table, for "
+    "eos in {unset, each token} x finish_all_paths x width in {1,3,V^T+3} x batch {3, unset, 1} the plain "
+    "call is compared (slots and whole columns) with: eos as negative index, numpy integers, 0-dim tensor "
+    "max_iters, integral floats (these three may be refused), constructor/call keywords, initial_state as "
+    "keyword, width assigned as attribute, empty/None/omitted initial state, a model whose logits require "
+    "grad, no_grad, inference_mode, default dtype float64 (model built before / inside), and "
+    "torch.jit.script(BeamSearch(torch.jit.script(table LM))) incl. negative eos. One case = one search (one trajectory) resp. one advance "
     "step; distinct by construction (cartesian product of duplicate-free menus). Non-trivial = the "
     "reference search pruned at least one candidate or some returned path ended early by eos."
 )
@@ -54,7 +61,12 @@ ASSUMPTIONS = [
     "object-reuse histories have length 3 (a, b, a) over a fixed menu; width/eos/finish_all_paths/pad_value "
     "are changed by assigning the module's public attributes of the same names; padding contents are compared "
     "only between reused and fresh objects (usable slots), not against a model",
-    "TorchScript-compiled and CUDA variants not explored; pad_value is varied only in the object-reuse part",
+    "variants: spellings the documentation does not promise (numpy ints, 0-dim tensors, integral floats) may "
+    "raise, but must mean the same search when accepted; default-dtype-float64 runs are compared at 1e-5 and "
+    "skipped on near ties; graph leaks / memory are not checked",
+    "TorchScript: explored for width 3 and V^T+3 on a scriptable re-statement of the table LM "
+    "(checks/_c04_lm.py::ScriptTableLM, no call counters); tracing is not explored (the repository's tests "
+    "mark it unsupported); CUDA not explored; pad_value is varied only in the object-reuse part",
 ]
 BUDGET_S = {"quick": 240, "thorough": 2400}
 
@@ -101,6 +113,7 @@ def shards(tier, seed):
             out.append({"kind": "unbounded", "V": V, "T": T, "table": table})
             out.append({"kind": "advance", "V": V, "T": T, "table": table})
             out.append({"kind": "reuse", "V": V, "T": T, "table": table})
+            out.append({"kind": "variants", "V": V, "T": T, "table": table})
     return out
 
 
@@ -112,7 +125,7 @@ def _batch_tag(batch_size):
 
 
 def _run_search(ctx, case, lm, width, eos, fap, max_iters, batch_size, offs, observed, with_state=True,
-                bs=None, sig_extra=None):
+                bs=None, sig_extra=None, caller=None):
     """returns (per-element slot lists, observed steps or None, raw) or None after reporting a violation.
     slot = (tokens tuple or None if unusable, score); raw = per element, per slot the whole returned column
     of y (None for unusable slots).  bs: an existing module object to call (object-reuse histories), whose
@@ -122,13 +135,17 @@ def _run_search(ctx, case, lm, width, eos, fap, max_iters, batch_size, offs, obs
     lm.calls_left = STEP_CAP
     sig_extra = sig_extra or {}
     try:
-        if bs is None:
+        if caller is not None:  # variant spellings: the callable builds and calls the module itself
+            y, lens, lp = caller()
+        elif bs is None:
             cls = ObservedBeamSearch if observed else M.BeamSearch
             bs = cls(lm, width, eos=eos, finish_all_paths=fap) if eos is not None else cls(lm, width)
         elif observed:
             bs.steps = []
         init = {"off": torch.tensor(list(offs), dtype=torch.long)} if with_state else None
-        if init is None:
+        if caller is not None:
+            pass
+        elif init is None:
             y, lens, lp = bs(batch_size=batch_size, max_iters=max_iters)
         else:
             y, lens, lp = bs(init, batch_size, max_iters)
@@ -173,7 +190,7 @@ def _run_search(ctx, case, lm, width, eos, fap, max_iters, batch_size, offs, obs
                 return None
             slots.append((tuple(yl[n][k][: ll[n][k]]), sc))
         elems.append(slots)
-    return elems, (bs.steps if observed else None), raw
+    return elems, (bs.steps if observed and caller is None else None), raw
 
 
 # ---------------------------------------------------------------------------------------------
@@ -295,13 +312,13 @@ def _check_steps(ctx, case, model, offs, eos, fap, steps, info):
     return n_steps
 
 
-def _same_slots(a, b):
+def _same_slots(a, b, tol=1e-6):
     if len(a) != len(b):
         return False
     for (ta, sa), (tb, sb) in zip(a, b):
         if (ta is None) != (tb is None):
             return False
-        if ta is not None and (ta != tb or abs(sa - sb) > 1e-6 * (1.0 + abs(sb))):
+        if ta is not None and (ta != tb or abs(sa - sb) > tol * (1.0 + abs(sb))):
             return False
     return True
 
@@ -501,6 +518,170 @@ def _check_reuse(ctx, model, lm, tier, seed):
 
 
 # ---------------------------------------------------------------------------------------------
+# the same search spelled / hosted differently: alias spellings of arguments, autograd state, global torch
+# state, TorchScript
+# ---------------------------------------------------------------------------------------------
+def _variant_configs(V, T):
+    out = []
+    for eos in [None] + list(range(V)):
+        for fap in ((False, True) if eos is not None else (False,)):
+            for width in (1, 3, V ** T + 3):
+                for batch_size, offs in ((3, (0, 1, 2)), (None, (1,)), (1, (0,))):
+                    out.append({"width": width, "eos": eos, "fap": fap, "max_iters": T, "batch_size": batch_size,
+                                "offs": offs})
+    return out
+
+
+class _default_dtype:
+    def __init__(self, dtype):
+        self.dtype = dtype
+
+    def __enter__(self):
+        self.old = torch.get_default_dtype()
+        torch.set_default_dtype(self.dtype)
+
+    def __exit__(self, *exc):
+        torch.set_default_dtype(self.old)
+
+
+def _variants(model, lm, lm_grad, slm, cfg):
+    """yields (name, strict, tolerance, exact_columns, thunk); thunk() builds and runs the search and returns
+    the module's three outputs. strict=False: a spelling the documentation does not promise - it may be
+    refused (any exception), but if it is accepted it must mean the same search."""
+    import numpy as np
+
+    V = model.V
+    w, eos, fap, m, bsz, offs = (cfg[k] for k in ("width", "eos", "fap", "max_iters", "batch_size", "offs"))
+
+    def init():
+        return {"off": torch.tensor(list(offs), dtype=torch.long)}
+
+    def mk(lm_=lm, width=w, eos_=eos):
+        return M.BeamSearch(lm_, width) if eos_ is None else M.BeamSearch(lm_, width, eos=eos_, finish_all_paths=fap)
+
+    if eos is not None:
+        yield "eos-negative-index", True, 1e-6, True, lambda: mk(eos_=eos - V)(init(), bsz, m)
+    yield ("numpy-integers", False, 1e-6, True,
+           lambda: mk(width=np.int64(w), eos_=None if eos is None else np.int64(eos))(
+               init(), None if bsz is None else np.int64(bsz), np.int64(m)))
+    yield "max_iters-0dim-tensor", False, 1e-6, True, lambda: mk()(init(), bsz, torch.tensor(m))
+    yield ("integral-floats", False, 1e-6, True,
+           lambda: mk(width=float(w), eos_=None if eos is None else float(eos))(init(), bsz, float(m)))
+
+    def kw():
+        if eos is None:
+            bs = M.BeamSearch(lm=lm, width=w)
+        else:
+            bs = M.BeamSearch(lm=lm, width=w, eos=eos, finish_all_paths=fap)
+        return bs(init(), batch_size=bsz, max_iters=m)
+
+    yield "constructor-and-call-keywords", True, 1e-6, True, kw
+    yield ("initial_state-keyword", True, 1e-6, True,
+           lambda: mk()(initial_state=init(), batch_size=bsz, max_iters=m))
+
+    def attr():
+        bs = mk(width=w + 2)
+        bs.width = w
+        return bs(init(), bsz, m)
+
+    yield "width-as-stored-attribute", True, 1e-6, True, attr
+    if all(o == 0 for o in offs):
+        yield "initial-state-empty-dict", True, 1e-6, True, lambda: mk()({}, bsz, m)
+        yield "initial-state-None", True, 1e-6, True, lambda: mk()(None, bsz, m)
+        yield "initial-state-omitted", True, 1e-6, True, lambda: mk()(batch_size=bsz, max_iters=m)
+    yield "lm-outputs-require-grad", True, 1e-6, True, lambda: mk(lm_=lm_grad)(init(), bsz, m)
+
+    def no_grad():
+        with torch.no_grad():
+            return mk(lm_=lm_grad)(init(), bsz, m)
+
+    def inference():
+        with torch.inference_mode():
+            return mk()(init(), bsz, m)
+
+    def f64():
+        with _default_dtype(torch.float64):
+            return mk()(init(), bsz, m)
+
+    def f64_lm():
+        with _default_dtype(torch.float64):
+            return mk(lm_=TableLM(model))(init(), bsz, m)
+
+    yield "no_grad", True, 1e-6, True, no_grad
+    yield "inference_mode", True, 1e-6, True, inference
+    yield "default-dtype-float64", True, 1e-5, True, f64
+    yield "default-dtype-float64-model-too", True, 1e-5, True, f64_lm
+    if slm is not None and w != 1:
+        yield "torchscript", True, 1e-6, True, lambda: torch.jit.script(mk(lm_=slm))(init(), bsz, m)
+        if eos is not None:
+            yield ("torchscript-eos-negative-index", True, 1e-6, True,
+                   lambda: torch.jit.script(mk(lm_=slm, eos_=eos - V))(init(), bsz, m))
+
+
+def _check_variant_cfg(ctx, model, lm, lm_grad, slm, cfg, tier, seed, only=None):
+    case = {"kind": "variants", "V": model.V, "T": model.depth, "table": model.name, "seed": seed, "tier": tier,
+            "cfg": dict(cfg, offs=list(cfg["offs"]))}
+    w, eos, fap, m, bsz, offs = (cfg[k] for k in ("width", "eos", "fap", "max_iters", "batch_size", "offs"))
+    base = _run_search(ctx, case, lm, w, eos, fap, m, bsz, offs, False, sig_extra={"variant": "plain"})
+    ctx.case(1, 0)
+    if base is None:
+        return
+    refs = {o: (O.reference_beam(model, o, w, eos, fap, m), O.complete_sequences(model, o, eos, m))
+            for o in set(offs)}
+    near = any(r[0]["near_tie"] for r in refs.values())
+    for name, strict, tol, exact_cols, thunk in _variants(model, lm, lm_grad, slm, cfg):
+        if only is not None and name != only:
+            continue
+        vcase = dict(case, variant=name)
+        if not strict:
+            try:
+                out = thunk()
+            except Exception:
+                ctx.count("loose_spelling_refused")
+                continue
+            call = (lambda o=out: o)
+        else:
+            call = thunk
+        ctx.case(1, 1)
+        ctx.transitions += 1
+        got = _run_search(ctx, vcase, lm, w, eos, fap, m, bsz, offs, False, sig_extra={"variant": name},
+                          caller=call)
+        if got is None:
+            continue
+        elems, _, raw = got
+        ok = True
+        for n, o in enumerate(offs):
+            info = {"batch_size": bsz, "N": len(offs), "element": n, "offs": list(offs), "variant": name}
+            ok = _check_elem(ctx, vcase, model, o, eos, fap, w, m, elems[n], refs[o][0], refs[o][1], info) and ok
+        if tol > 1e-6 and near:
+            ctx.count("downgraded_near_tie")
+        else:
+            same = all(_same_slots(x, y, tol) for x, y in zip(elems, base[0])) and (
+                not exact_cols or raw == base[2])
+            if not same:
+                ctx.violation({"api": BS, "symptom": "variant-differs-from-plain-call", "variant": name}, vcase,
+                              {"variant": elems, "plain": base[0], "variant_columns": raw, "plain_columns": base[2]})
+                ok = False
+        if ok:
+            ctx.traces += 1
+            ctx.count("variant_calls_equal_to_plain")
+            ctx.outcome(("variant", name))
+
+
+def _check_variants(ctx, model, tier, seed):
+    lm = TableLM(model)
+    lm_grad = TableLM(model, trainable=True)
+    try:
+        slm = torch.jit.script(ScriptTableLM(model))
+    except Exception as e:  # the harness model, not the library
+        slm = None
+        ctx.notes.append(f"scriptable table LM could not be scripted: {e!r}"[:300])
+        ctx.capped.append("torchscript variants skipped (harness LM not scriptable)")
+    for cfg in _variant_configs(model.V, model.depth):
+        _check_variant_cfg(ctx, model, lm, lm_grad, slm, cfg, tier, seed)
+
+
+# ---------------------------------------------------------------------------------------------
 # functional.beam_search_advance, step by step
 # ---------------------------------------------------------------------------------------------
 def _drive_advance(ctx, model, offs, widths, eos, use_lens, seed, tier):
@@ -653,6 +834,8 @@ def run_shard(spec, tier, seed):
     elif spec["kind"] == "reuse":
         model = O.make_model(V, T, spec["table"], seed)
         _check_reuse(ctx, model, TableLM(model), tier, seed)
+    elif spec["kind"] == "variants":
+        _check_variants(ctx, O.make_model(V, T, spec["table"], seed), tier, seed)
     else:
         model = O.make_model(V, T, spec["table"], seed)
         for eos in [None] + list(range(V)):
@@ -682,6 +865,15 @@ def replay(case):
         model = O.make_model(V, T, case["table"], seed)
         a, b = (dict(c, offs=tuple(c["offs"])) for c in (case["first"], case["second"]))
         _check_reuse_pair(ctx, model, TableLM(model), a, b, case["observed"], tier, seed)
+    elif case["kind"] == "variants":
+        model = O.make_model(V, T, case["table"], seed)
+        cfg = dict(case["cfg"], offs=tuple(case["cfg"]["offs"]))
+        try:
+            slm = torch.jit.script(ScriptTableLM(model))
+        except Exception:
+            slm = None
+        _check_variant_cfg(ctx, model, TableLM(model), TableLM(model, trainable=True), slm, cfg, tier, seed,
+                           only=case.get("variant"))
     elif case["kind"] == "advance":
         model = O.make_model(V, T, case["table"], seed)
         _drive_advance(ctx, model, tuple(case["offs"]), case["widths"], case["eos"], case["use_lens"], seed, tier)
